@@ -182,6 +182,29 @@ def run(ctx):
             if "res=b1" not in out:
                 viol.append({"op": "renamescript", "args": "('old', 'new') emulated; script body %r, active=%s" % (body, act), "reply": repr(statuses),
                              "what": "every reply of the emulated rename was OK (server statuses %r) but the call returned %s" % (statuses, out[:60])})
+    # … and a NO at any of its steps, whatever response code it carries (NONEXISTENT for the final DELETESCRIPT included: the
+    # server said NO, the call says False), makes the emulated rename return False
+    for step in prop_C14.STEPS:
+        for code in ("", "NONEXISTENT", "ACTIVE", "ALREADYEXISTS", "QUOTA/MAXSIZE", "TRYLATER", "WARNINGS", "nonexistent"):
+            for act in (False, True):
+                srv = refserver.RefServer(r, scripts={b"old": b"keep;\r\n", b"by": b"stop;\r\n"}, active=(b"old" if act else None), version=False,
+                                          faults={step: "NO:" + code})
+                s = msref.Session()
+                g = srv.greeting()
+                c_out = s.connect(b"", [], "user", "pw", server=srv)
+                reqs = ["c op=new", msref.req_connect(g, [], "user", "pw", later=list(s.wire.segments))]
+                nseg = len(s.wire.segments)
+                out = s.op("renamescript", "old", "new")
+                reqs.append(msref.req_op("renamescript", "old", "new", later=list(s.wire.segments[nseg:])))
+                lines += reqs
+                expect += ["ok", c_out, out]
+                evals += 1
+                nontriv += 1
+                reached = any(v == step for v, _, _, _ in srv.commands)
+                if reached and "res=b0" not in out:
+                    viol.append({"op": "renamescript", "args": "('old', 'new') emulated, old %s" % ("active" if act else "inactive"),
+                                 "reply": "NO (%s) at %s" % (code or "no code", step),
+                                 "what": "the server answered %s with NO (%s) but the emulated rename returned %s" % (step, code or "no code", out.split(" ")[0])})
     model = run_driver(lines, live_table=False)
     diffs = [{"suite": "reader", "request": l[:300], "impl": e[:300], "model": m[:300]} for l, e, m in zip(lines, expect, model) if e != m]
     fresh, known = split_known("C09", viol, lambda f, v: False)
